@@ -213,6 +213,48 @@ def flush_case(vs: list, bs: int, bk: int, bp: int, bq: int) -> bool:
     return False
 
 
+
+# Rings: W two-qudit gates on the W edges of a ring, in EVERY order (chains of bins that depend on one another
+# all the way round; the partitioners' cycle-avoidance logic is what is exercised).
+RING_LABELS = {
+    'id': lambda W: list(range(W)),
+    'evens-odds': lambda W: [q for q in range(W) if q % 2 == 0] + [q for q in range(W) if q % 2 == 1],
+    'stride': lambda W: sorted(range(W), key=lambda q: (q * 3 % W, q)) if W % 3 else [0, 3, 1, 4, 2, 5][:W],
+}
+
+
+@rt.natively
+def ring_case(vs: list, bs: int) -> bool:
+    rt.begin()
+    S = rt.SHARD
+    W = S['W']
+    lab = RING_LABELS[S['labels']](W)
+    edges = [sorted((lab[i], lab[(i + 1) % W])) for i in range(W)]
+    rest = list(range(W))
+    order = []
+    for i in range(W):       # a permutation of the edges, as a Lehmer code of symbolic digits
+        order.append(rest.pop(rt.P(vs[i], 0, len(rest) - 1)))
+    specs = [(2, edges[j]) for j in order]
+    bsv = rt.P(bs, S['bs'][0], S['bs'][1])
+    for which in S['parts']:
+        fp = native(check_case, which, W, specs, bsv, -1, None, 1, None, rt.log if rt.CONCRETE else None)
+        if fp is not None:
+            if rt.CONCRETE:
+                rt.log('violated:', fp, '| pass', which, 'block size', bsv, 'specs (kind, location)', specs)
+            if not rt.fail(fp):
+                rt.reach()
+                return False
+    rt.reach()
+    return True
+
+
+def ring(v0: int, v1: int, v2: int, v3: int, v4: int, v5: int, bs: int) -> bool:
+    """
+    post: _
+    """
+    return ring_case([v0, v1, v2, v3, v4, v5], bs)
+
+
 def e1(k0: int, a0: int, b0: int, c0: int, r0: int, bs: int, gp: int, d0: int, d1: int, d2: int, d3: int,
        ex: int) -> bool:
     """
@@ -298,6 +340,10 @@ def obligations(tier: str) -> list[dict]:
                     'func': 'fl',
                     'shard': sh, 'timeout': timeout})
 
+    def ring(W: int, labels: str, parts: list, bs: list, timeout: int) -> None:
+        obs.append({'name': '%s/ring/W%d/%s/bs%d-%d' % ('+'.join(parts), W, labels, bs[0], bs[1]), 'func': 'ring',
+                    'shard': {'W': W, 'labels': labels, 'parts': parts, 'bs': bs}, 'timeout': timeout})
+
     QSS = ['quick', 'scan', 'single']     # share a path: same realised circuit, each pass on its own copy
     QS = ['quick', 'single']              # the two passes that know about barrier-like operations
     GR = ['greedy']
@@ -336,6 +382,9 @@ def obligations(tier: str) -> list[dict]:
             ob(['scan'], 5, 4, [2], [3, 3], T, 'twoq', a0=a0)
         flush(5, [2, 2], T)
         flush(5, [2, 4], T, base='triples')
+        ring(6, 'id', QSS, [3, 3], T)
+        ring(6, 'evens-odds', QSS, [3, 3], T)
+        ring(5, 'evens-odds', QSS, [2, 3], T)
         return obs
 
     T = 3000
@@ -379,6 +428,10 @@ def obligations(tier: str) -> list[dict]:
     ob(QS, 4, 3, [1, 2, 7, 11], [2, 2], T, 'then-extend', extend=[2, 3])
     ob(['single'], 4, 3, [1, 2, 4, 7], [1, 1], T, 'then-extend', extend=[2, 4])
     ob(['scan'], 4, 3, [1, 2], [2, 3], T, 'then-extend', extend=[2, 4])
+    for lab in ('id', 'evens-odds', 'stride'):
+        ring(6, lab, QSS, [2, 4], T)
+        ring(5, lab, QSS, [2, 4], T)
+        ring(4, lab, QSS + ['greedy'], [2, 3], T)
     flush(3, [2, 2], T)
     flush(2, [2, 4], T, base='triples')
     flush(4, [2, 2], T, barrier=True, variants=2)
